@@ -604,6 +604,24 @@ func (j *job) prepare(r *vf.Run) bool {
 		plain[i] = in[i].Entry
 	}
 	tarBytes := gen.TarBytes(plain)
+	// fifth wave (C03-7): bytes after the end-of-archive marker (GNU tar pads the archive to a
+	// multiple of its 10240-byte record; other writers add a few zero blocks). Lossless mode
+	// documents the input as reproduced byte for byte, so the padding belongs to inputTar.
+	// Drawn from a derived stream so that the other fields of the case stay what they were.
+	if c.Mode == "lossless" && (c.Input == "plain" || c.Input == "gzip" || c.Input == "gzipmulti") {
+		if pr := rng.Derive(4242); c.Input != "plain" || pr.Chance(2, 3) {
+			pad := 512 * pr.Range(1, 3)
+			if pr.Chance(1, 2) {
+				pad = (10240 - len(tarBytes)%10240) % 10240
+				if pad == 0 {
+					pad = 10240
+				}
+			}
+			tarBytes = append(tarBytes[:len(tarBytes):len(tarBytes)], make([]byte, pad)...)
+			r.Count("lossless_trailing_padding_"+c.Input, 1)
+			j.replay["trailing_zero_bytes_after_end_of_archive"] = pad
+		}
+	}
 
 	// ---- input serialisation --------------------------------------------------------
 	var input []byte
